@@ -14,7 +14,7 @@ func init() {
 	register(&Property{
 		ID:          "C06",
 		Run:         runC06,
-		Explanation: "Decides the structural clauses of a draining graceful stop: (R1) v1 source and destination nodes register, on the Open success edge, a deferred teardown that waits for all open messages first (destination: stop → wait → teardown), every tracked message is added to the tracker before it is sent on, and status handlers run newest-first so the tracker's Done is the last step of an ack; (R2) every Open has its Close/Teardown on all exits (DLQ handler, processor node, v2 worker rollback, idempotent source teardown under its mutex); (R3) StopAndWait = Stop[ok] → WaitPipeline[ok] → WaitPersisted → nil in both engines; (R4) v2 Worker.Stop takes the processing lock before arming the stop flag and tearing the source down, and a batch is discarded only after the lock was acquired; (R5 = C02.R7) Source.Teardown's flush → drain → stop order; (R6) the stop position is fetched and recorded before the stop control message is injected; (R7) every flush generation of the persister completes (callbacks run, callbacksDone closed) on every exit of flushNow; (R8) no send on the node error channel reachable from a persister flush callback can block (non-blocking select on a buffered channel), so the final flush after the node stopped cannot hang Persister.Wait / stop-and-wait; (R9) the v1 fan-in reports end-of-stream only once every input channel is closed, so records held upstream of it are still forwarded during a drain.",
+		Explanation: "Decides the structural clauses of a draining graceful stop: (R1) v1 source and destination nodes register, on the Open success edge, a deferred teardown that waits for all open messages first (destination: stop → wait → teardown), every tracked message is added to the tracker before it is sent on, and status handlers run newest-first so the tracker's Done is the last step of an ack; (R2) every Open has its Close/Teardown on all exits (DLQ handler, processor node, v2 worker rollback, idempotent source teardown under its mutex); (R3) StopAndWait = Stop[ok] → WaitPipeline[ok] → WaitPersisted → nil in both engines; (R4) v2 Worker.Stop takes the processing lock before arming the stop flag and tearing the source down, and a batch is discarded only after the lock was acquired; (R5 = C02.R7) Source.Teardown's flush → drain → stop order; (R6) the stop position is fetched and recorded before the stop control message is injected; (R7) every flush generation of the persister completes (callbacks run, callbacksDone closed) on every exit of flushNow; (R8) no send on the node error channel reachable from a persister flush callback can block (non-blocking select on a buffered channel), so the final flush after the node stopped cannot hang Persister.Wait / stop-and-wait; (R9) the v1 fan-in reports end-of-stream only once every input channel is closed, so records held upstream of it are still forwarded during a drain. Rules added later (after independent seeded changes and defect hunts) are not all enumerated here: every armed rule is listed with its description, kind and instance count under coverage.rules.",
 		NotDecided:  []string{"that the drain terminates in general (liveness beyond R7)", "timing of debounce timers", "plugin behaviour"},
 		Assumptions: []string{"sync.WaitGroup, rollback.R (Append/Skip/Execute) semantics", "deferred functions run in LIFO order on every exit"},
 	})
